@@ -98,6 +98,8 @@ class PEval:
             for i, sp in enumerate(pat["before"]):
                 self.bind(sp, ("child", v[1], i), env)
             return True
+        if k in ("pconst", "ppath") and isinstance(v, tuple) and v and v[0] == "ctor":
+            return v[1] == pat.get("path")
         vp = variant_pat(pat)
         if vp is not None:
             path, keys, _ = vp
@@ -169,6 +171,8 @@ class PEval:
         if k == "def":
             if (e.get("path") or "").endswith("Option::None"):
                 return ("none",)
+            if str(e.get("dk", "")).startswith("ctor"):
+                return ("ctor", e.get("path"), {})          # a field-less variant
             r = resolve(e)
             if r is not e and r.get("k") == "lit":
                 return ("lit", r.get("v"))
